@@ -3,6 +3,7 @@ package solicit
 
 import (
 	"bytes"
+	"github.com/aperturerobotics/bifrost/peer"
 	"sort"
 	"testing"
 
@@ -107,6 +108,20 @@ type c32Case struct {
 	Remote []int       `json:"remote"`
 	// MutAfter mutates the inputs after the call (clone independence).
 	MutAfter bool `json:"mut_after"`
+	// RawA / RawB: two more peer ids given as raw bytes - other id forms (hashed ids are shorter than identity ids),
+	// different lengths, one a prefix of the other
+	RawA vstat.Bytes `json:"raw_a,omitempty"`
+	RawB vstat.Bytes `json:"raw_b,omitempty"`
+}
+
+// rawIDGen: peer ids of several shapes and lengths
+func rawIDGen() *rapid.Generator[[]byte] {
+	return rapid.OneOf(
+		rapid.Map(rapid.SliceOfN(rapid.Byte(), 32, 32), func(d []byte) []byte { return append([]byte{0x12, 0x20}, d...) }),                         // sha2-256 form, 34 bytes
+		rapid.Map(rapid.SliceOfN(rapid.Byte(), 32, 32), func(d []byte) []byte { return append([]byte{0x00, 0x24, 0x08, 0x01, 0x12, 0x20}, d...) }), // identity form, 38 bytes
+		rapid.SliceOfN(rapid.Byte(), 1, 48),
+		rapid.SliceOfN(rapid.ByteRange('a', 'c'), 1, 6),
+	)
 }
 
 func genC32(t *rapid.T) c32Case {
@@ -118,6 +133,8 @@ func genC32(t *rapid.T) c32Case {
 		Local:    rapid.SliceOfN(rapid.IntRange(0, 9), 0, 8).Draw(t, "local"),
 		Remote:   rapid.SliceOfN(rapid.IntRange(0, 9), 0, 8).Draw(t, "remote"),
 		MutAfter: rapid.Bool().Draw(t, "mutafter"),
+		RawA:     rawIDGen().Draw(t, "rawa"),
+		RawB:     rawIDGen().Draw(t, "rawb"),
 	}
 }
 
@@ -214,6 +231,19 @@ func checkC32(c c32Case) (o vstat.Outcome) {
 			return vstat.Viol("session-id-collision", "different peer pairs share a session id")
 		}
 		_ = samePair
+		// symmetry for ids of any form and length
+		if len(c.RawA) != 0 && len(c.RawB) != 0 {
+			ra, rb := peer.ID(c.RawA), peer.ID(c.RawB)
+			r1, r2 := link_solicit.ComputeSessionID(ra, rb), link_solicit.ComputeSessionID(rb, ra)
+			if !bytes.Equal(r1, r2) {
+				return vstat.Viol("session-id-asymmetric", "ComputeSessionID(a,b) != ComputeSessionID(b,a) for ids %x (%d bytes) and %x (%d bytes)", []byte(ra), len(ra), []byte(rb), len(rb))
+			}
+			// and mixed with a key-derived id
+			m1, m2 := link_solicit.ComputeSessionID(ida, rb), link_solicit.ComputeSessionID(rb, ida)
+			if !bytes.Equal(m1, m2) {
+				return vstat.Viol("session-id-asymmetric", "ComputeSessionID(a,b) != ComputeSessionID(b,a) for a key-derived id and %x", []byte(rb))
+			}
+		}
 		return nil
 	})
 	return
